@@ -70,10 +70,13 @@ instance (e : Expr) : Decidable (InFragment e) := inferInstanceAs (Decidable (_ 
   * `sub`        directly under `Subscript`: `Slice`, a bare `NamedExpr`, a tuple of `subElem`s (a single starred
                  index is the 1-tuple);
   * `subElem`    element of the tuple directly under `Subscript`: `Slice`, `Starred`, operand;
-  * `target`     comprehension target (`ExpressionList` in front of `in`): an `Expression`-level operand (no lambda,
-                 conditional, `and` / `or` / `not`, comparison, named expression — the unparser renders the target at
-                 tuple level, so those would come out bare), `Starred`, or a bare tuple of `targetElem`s;
-  * `targetElem` element of a bare target tuple: `Expression`-level operand or `Starred`.
+  * `target`     comprehension target (`ExpressionList` in front of `in`): any operand — the parser does not check
+                 that it is an assignment target, so also a (parenthesised) conditional, lambda, `and` / `or` / `not`,
+                 comparison or named expression; the unparser writes it at `Expression` level since /repo's repair of
+                 `unparse_comp` —, a `Starred`, or a bare tuple of `targetElem`s;
+  * `targetElem` element of a bare target tuple: any operand or a `Starred`.
+  So the target positions admit exactly what `elem` admits (`fx_target_eq_elem`); they differ in how the tree is
+  written (a tuple bare, operands at `Expression` level) and read (`ExpressionList`).
 
   Side conditions the parser checks when it builds the node (`function.rs`) are part of the fragment: a lambda's
   positional parameters have no default-less parameter after a defaulted one and all parameter names are distinct
@@ -84,7 +87,8 @@ inductive XPos where
   | plain | elem | sub | subElem | target | targetElem
 deriving DecidableEq, Repr
 
-/-- not a comprehension-target position -/
+/-- not a comprehension-target position (no longer used by `fx`: since the repair of `unparse_comp` every operand
+    may stand in a target position; PV.Prog.Thm still names it in a `simp` set) -/
 def XPos.notTarget : XPos → Bool
   | .target | .targetElem => false
   | _ => true
@@ -110,13 +114,13 @@ mutual
 def fx : XPos → Expr → Bool
   | _, .name _ => true
   | _, .const _ => true
-  | q, .boolOp _ vs => q.notTarget && decide (2 ≤ vs.length) && fxList .plain vs
-  | q, .namedExpr t v => (q != .target && q != .targetElem) && isName t && fx .plain v
+  | _, .boolOp _ vs => decide (2 ≤ vs.length) && fxList .plain vs
+  | _, .namedExpr t v => isName t && fx .plain v
   | _, .binOp l _ r => fx .plain l && fx .plain r
-  | q, .unaryOp o e => (q.notTarget || o != .not) && fx .plain e
-  | q, .lambda po ar va ko kw b =>
-    q.notTarget && fxParams po && fxParams ar && fxParams ko && lambdaOk po ar va ko kw && fx .plain b
-  | q, .ifExp t b o => q.notTarget && fx .plain t && fx .plain b && fx .plain o
+  | _, .unaryOp _ e => fx .plain e
+  | _, .lambda po ar va ko kw b =>
+    fxParams po && fxParams ar && fxParams ko && lambdaOk po ar va ko kw && fx .plain b
+  | _, .ifExp t b o => fx .plain t && fx .plain b && fx .plain o
   | _, .dict items => fxItems items
   | _, .set es => !es.isEmpty && fxList .elem es
   | _, .listComp e gs => fx .elem e && !gs.isEmpty && fxComps gs
@@ -127,8 +131,8 @@ def fx : XPos → Expr → Bool
   | _, .yield none => true
   | _, .yield (some e) => fx .elem e
   | _, .yieldFrom e => fx .plain e
-  | q, .compare l ops cs =>
-    q.notTarget && fx .plain l && !cs.isEmpty && decide (ops.length = cs.length) && fxList .plain cs
+  | _, .compare l ops cs =>
+    fx .plain l && !cs.isEmpty && decide (ops.length = cs.length) && fxList .plain cs
   | _, .call f as ks => fx .plain f && fxList .elem as && fxKeywords ks && kwFresh [] ks
   | _, .formattedValue .. => false
   | _, .joinedStr _ => false
